@@ -208,9 +208,12 @@ def search(rec, ctx):
                 i = rnd.choice(nls) + 1
                 src = src[:i] + rnd.choice(["    ", "\t", "  \t ", " ", "        ", "  \x0c"]) + "\n" + src[i:]
                 stream += "+blank-row"
+        if rnd.random() < 0.04:
+            # a NUL character, in code, in a string, in a comment: neither entry point may treat it specially on its own
+            i = rnd.randrange(len(src) + 1)
+            src = src[:i] + "\x00" + src[i:]
+            stream += "+nul"
         src = newline_variant(rnd, src)
-        if "\x00" in src:
-            return
         try:
             src.encode("utf-8")
         except UnicodeEncodeError:
